@@ -280,6 +280,7 @@ class AsyncRunnerTemplate(BaseRunner, ABC):
         validate_node_types(graph, self.supported_node_types)
         validate_map_compatible(graph)
         select = normalize_select(select)
+        _validate_on_missing(on_missing)
         _validate_error_handling(error_handling)
 
         map_over_list = [map_over] if isinstance(map_over, str) else list(map_over)
